@@ -3,13 +3,16 @@ from propcommon import COMMON_MODELLED
 PROP = dict(
 
         gotest="TestC14",
+        translator="arithC14",
+        extra_props=["ArithTieC14"],
         model="coq/Models/Vesting.v (exact: VestedSoFar, ProcessTokenVesting, ClaimVesting, CancelVest, VestNow, UpdateVestingInfo)",
-        coq_deps=["Base/", "Models/Vesting.v", "Proofs/VestingProofs.v", "Run/VestingRun.v", "Props/C14.v"],
+        coq_deps=["Base/", "Models/Vesting.v", "Proofs/VestingProofs.v", "Run/VestingRun.v", "Props/C14.v", "Generated/ArithC14.v", "Proofs/ArithTieTac.v", "Proofs/ArithTieC14.v", "Props/ArithTieC14.v"],
         rule="histories of 25-55 ops (vest/claim/cancel/vest_now/gov/enable_now/blocks) over 3 accounts on a fresh real app each; "
              "amounts relative to the available Eden / outstanding vesting (1, 0.1%, 1/3, 1/2, all-1, all, all+1, 2x), initial Eden 1..1e26, "
              "block advances 1,2,3,N/2,N-1,N,N+1; distinct = distinct (op,result,account) sequence; non-trivial = at least one successful "
              "vest, cancel, vest-now or a claim that released something",
-        trusted_base=["only the ueden->uelys vesting info is modelled (VestLiquid of other denoms is not)",
+        trusted_base=["tools/gotrans arith (Go AST + go/types -> Gallina over Base/Zdec.v): the method table of coq/Generated/ARITH_README.md (Int/LegacyDec method -> Zdec function, validated by TestZdec); what the opaque readers of a translated function return is covered by the correspondence run only",
+                      "only the ueden->uelys vesting info is modelled (VestLiquid of other denoms is not)",
                       "claimable Eden is seeded through CommitmentKeeper.SetCommitments (fixture), not earned"],
         modelled="x/commitment vesting handlers as Gallina functions over Z; " + COMMON_MODELLED,
         level_text="Theorems (Coq, closed under the global context) over an exact Gallina model of the vesting handlers: conservation and "
